@@ -1,11 +1,11 @@
 ---- MODULE ReqResp ----
 (* C45 component spec: request-response Behaviour + the Swarm's delivery of its commands
    (protocols/request-response/src/lib.rs).  One remote peer, several connections.  The behaviour's view
-   (`connected`, `pending_outbound_requests`, per-connection pending sets) is kept separate from the pool's view
-   (`sconn`, with the closing phase in which NotifyHandler commands are lost).
+   (connected, pending_outbound_requests, per-connection pending sets) is kept separate from the pool's view
+   (sconn, with the closing phase in which NotifyHandler commands are lost).
    ConnDenied: another behaviour of the composed NetworkBehaviour denies a connection AFTER this behaviour has
    created (and preloaded) its handler in handle_established_*_connection; the behaviour only sees
-   DialFailure / ListenFailure {Denied} with the connection id.  `ForgetDenied` = FALSE transcribes the code before
+   DialFailure / ListenFailure {Denied} with the connection id.  ForgetDenied = FALSE transcribes the code before
    the repair (the failure is ignored, the connection entry and the preloaded requests stay): it is the canary. *)
 EXTENDS Naturals, Sequences, FiniteSets, TLC
 CONSTANTS ForgetDenied, Reqs, Conns, Inb            \* outbound request ids (1..R), connection ids, inbound request ids
